@@ -11,6 +11,8 @@ Families
                  different content (rows reversed / rolled / interleaved, and back); after every round and
                  in both orders (get(i) first / get(None) first) get(i) == get(None)[:, [i]] and both equal
                  models/feature_ref on the CURRENT buffers.
+                 Hedger.get_input(derivative, i) for every i in 0..T-1 and None == the feature list at step i
+                 == column i of the all-steps input.
   hedge_loop     the stepwise loop against the reference automaton (models/hedge_loop.py): a recording
                  wrapper logs what the model sees; in_0 carries zeros of shape (N,1,H) in the prev_hedge
                  slot, in_i carries out_{i-1} bitwise, exactly T-1 model calls, last column repeated,
@@ -229,6 +231,43 @@ def feature_steps(ctx, block):
                 ctx.violation(site, "column_order:get(i)",
                               f"FeatureList.get({i}) column {c} is not feature #{c} of the list",
                               observed=col[0, 0].tolist(), expected=exp[0, 0].tolist(), block=mini)
+        # Hedger.get_input(derivative, i): the documented way to step a hedger by hand.  For every i in 0..T-1
+        # (and None) it is the FeatureList of the inputs at step i == column i of the all-steps input
+        from pfhedge.nn import Hedger, Naked
+        hedger = Hedger(Naked(), list(objs))
+        site = "Hedger.get_input"
+        do_input = (ctx.thorough and w.get("dtype", "float64") == "float64" and w.get("dt", "dyadic") == "dyadic"
+                    and w.get("call", True)) or (
+                        w.get("dtype", "float64") == "float64" and w.get("dt", "dyadic") == "dyadic"
+                                    and not w.get("listed") and w["ul"] in ("brownian", "heston", "cir")
+                                    and w.get("kind") in ("european", "lookback", "variance_swap") and w.get("call", True))
+        okg, allsteps = _guard(ctx, site, "get_input(None)", f"{w['ul']}/{w.get('kind')}", mini,
+                               lambda: hedger.get_input(world.d, None)) if do_input else (False, None)
+        if okg:
+            if tuple(allsteps.shape) != tuple(full.shape) or not _eqc(allsteps, full).all():
+                ctx.violation(site, "get_input(None)!=FeatureList.get(None)",
+                              f"Hedger.get_input(derivative, None) is not the feature list evaluated for all steps "
+                              f"({w['ul']}/{w.get('kind')})", observed=list(allsteps.shape), expected=list(full.shape),
+                              block=mini)
+            for i in range(T):
+                okg, got = _guard(ctx, site, "get_input(i)", f"step {i} {w['ul']}/{w.get('kind')}", mini,
+                                  lambda: hedger.get_input(world.d, i))
+                if not okg:
+                    continue
+                with torch.no_grad():
+                    exp = fl.get(i)
+                ctx.tick(N, nontrivial=N)
+                # (a non-dyadic dt makes time_to_maturity(i) and column i of time_to_maturity(None) differ by an ulp:
+                #  that pair is compared per feature above with its derived bound; here within hw.tol)
+                col_ok = _eqc(got, full[:, [i]]) if w.get("dt", "dyadic") == "dyadic" else _close(got, full[:, [i]], False)
+                if tuple(got.shape) != tuple(exp.shape) or not _eqc(got, exp).all() or not col_ok.all():
+                    bad_ = tuple(got.shape) != tuple(exp.shape) or not _eqc(got, exp).all()
+                    ctx.violation(site, "get_input(i)!=features_at_step_i" + (":last_step" if i == T - 1 else ""),
+                                  f"Hedger.get_input(derivative, {i}) is not "
+                                  f"{'FeatureList.get(i)' if bad_ else 'column i of the all-steps input'} "
+                                  f"({[hw.label(s_) for s_ in specs]}, {w['ul']}/{w.get('kind')})",
+                                  observed=got[0, 0].tolist() if got.dim() == 3 else list(got.shape),
+                                  expected=exp[0, 0].tolist(), block=mini)
 
 
 
@@ -1070,11 +1109,13 @@ def run(ctx):
     # long time grids (more than 256 / 512 steps; T = 257 and 513 leave a one-step remainder for any
     # implementation that works in blocks of 256): all periodic paths of period 3 over the alphabet
     for Tl, ul in itertools.product((257, 300, 513) if ctx.quick else (257, 300, 513, 1025), ("brownian", "heston")):
-        if ctx.quick and ul == "heston" and Tl != 300:
+        if ctx.quick and ul == "heston":
             continue
         w = {"ul": ul, "kind": "european", "call": True, "T": Tl, "As": As, "period": 3,
              "Av": Av["variance"] if ul == "heston" else None, "dtype": "float64", "hedge": "default", "cost": 1 / 128}
         for m in branch_models(None)[:1] + branch_models(None)[2:3] + [{"model": "bs"}]:
+            if ctx.quick and Tl == 513 and m["model"] != "linear":
+                continue
             if hw.model_ok(m, w):
                 bblocks.append({"world": w, "model": m})
         if Tl == 300:
@@ -1113,7 +1154,8 @@ def run(ctx):
             continue
         if wb["ul"] not in ("brownian", "heston") or wb["kind"] not in ("european", "lookback") or not wb.get("call", True):
             continue
-        if ctx.quick and (wb.get("listed") or wb["dtype"] != "float64" or (wb["ul"] == "heston" and mb["model"] != "linear")):
+        if ctx.quick and (wb.get("listed") or wb["dtype"] != "float64" or wb["ul"] == "heston"
+                          or wb.get("hedge") not in ("default", "ul+listed")):
             continue
         evals.append({"world": wb, "model": dict(mb, module_mode="eval")})
     bblocks += evals
